@@ -16,6 +16,7 @@ T7 == [r |-> <<"a", "b", "c">>, a |-> << >>, b |-> << >>, c |-> << >>]
 T8 == [r |-> <<"a">>, a |-> <<"b">>, b |-> <<"c">>, c |-> << >>]
 MCTreesAll == {T1, T2, T3, T4, T5, T6, T7, T8}
 MCTreesQuick == {T1, T2, T3, T4, T5}
+MCTreesPair == {T2, T3}    \* one / two children finishing beside their parent
 CONSTANT MCTrees
 
 \* every stage has a plan of one node (named like the stage); plan TREES are the subject of MCPipelineTree
